@@ -919,7 +919,7 @@ pub fn run_case(name: &str, ops: &[(String, Op)], cleanup: bool, out: &mut Strin
     let _ = writeln!(out, "case {}", name);
     let bytes0 = at::LIVE_BYTES.load(Relaxed);
     let boxes0 = at::LIVE_RCBOX.load(Relaxed);
-    let ops_run = run_ops(ops, cleanup, out, boxes0);
+    let ops_run = run_ops(ops, cleanup, out, boxes0, name);
     // tear the world down without running library code on dangling handles: if the case was
     // stopped the remaining handles are leaked on purpose
     let stopped = with(|w| {
@@ -950,7 +950,57 @@ pub fn run_case(name: &str, ops: &[(String, Op)], cleanup: bool, out: &mut Strin
     CaseResult { ops_run }
 }
 
-fn run_ops(ops: &[(String, Op)], cleanup: bool, out: &mut String, boxes0: isize) -> usize {
+struct Perturb {
+    state: u64,
+    blocks: Vec<*mut u8>,
+    layout: std::alloc::Layout,
+}
+
+impl Perturb {
+    fn new(name: &str) -> Option<Self> {
+        let seed: u64 = std::env::var("HEXEC_PERTURB").ok()?.parse().ok()?;
+        let mut h = seed ^ 0x9E37_79B9_7F4A_7C15;
+        for b in name.bytes() {
+            h = (h ^ b as u64).wrapping_mul(0x100_0000_01B3);
+        }
+        let size = at::RCBOX_SIZE.load(Relaxed).max(64);
+        Some(Perturb { state: h | 1, blocks: Vec::with_capacity(4096), layout: std::alloc::Layout::from_size_align(size, 64).unwrap() })
+    }
+    fn next(&mut self) -> u64 {
+        self.state ^= self.state << 13;
+        self.state ^= self.state >> 7;
+        self.state ^= self.state << 17;
+        self.state
+    }
+    /// shift the addresses the next `RcBox` allocations will get
+    fn stir(&mut self) {
+        use std::alloc::GlobalAlloc;
+        let k = self.next() % 4;
+        for _ in 0..k {
+            if self.blocks.len() < 4000 {
+                let p = unsafe { std::alloc::System.alloc(self.layout) };
+                self.blocks.push(p);
+            }
+        }
+        if self.next() % 3 == 0 && !self.blocks.is_empty() {
+            let i = (self.next() as usize) % self.blocks.len();
+            let p = self.blocks.swap_remove(i);
+            unsafe { std::alloc::System.dealloc(p, self.layout) };
+        }
+    }
+}
+
+impl Drop for Perturb {
+    fn drop(&mut self) {
+        use std::alloc::GlobalAlloc;
+        for &p in &self.blocks {
+            unsafe { std::alloc::System.dealloc(p, self.layout) };
+        }
+    }
+}
+
+fn run_ops(ops: &[(String, Op)], cleanup: bool, out: &mut String, boxes0: isize, name: &str) -> usize {
+    let mut perturb = Perturb::new(name);
     let df0 = at::DOUBLE_FREE.load(Relaxed);
     let mut ops_run = 0;
     let mut queue: Vec<(String, Op)> = ops.to_vec();
@@ -986,6 +1036,9 @@ fn run_ops(ops: &[(String, Op)], cleanup: bool, out: &mut String, boxes0: isize)
         }
         let (text, op) = queue[qi].clone();
         qi += 1;
+        if let Some(p) = perturb.as_mut() {
+            p.stir();
+        }
         // C03 lower bound from the ledger before the op
         let (pre_lower, zero_path) = with(|w| match &op {
             Op::Act(Act::Drop(r)) if !w.roots.is_empty() && w.contract_ok && !w.any_panic => {
